@@ -51,7 +51,7 @@ def judge(ctx, mode, extra, obs, acc):
                               'selection', {}))
             if len(ev) > 6 and ev[6] is not None and '-md' not in extra:
                 want = ev[6][:min(pc, len(ev[6]))]
-                if len(ev[6]) <= 12 and [round(x, 9) for x in kept] != [round(x, 9) for x in want]:
+                if len(ev[6]) < 40 and [round(x, 9) for x in kept] != [round(x, 9) for x in want]:
                     found.append(('kept-peaks-are-not-the-highest', 'query %s reference %s strand %s -p %d: kept heights %s, all peak heights %s' % (
                         ev[1], ev[3], '-' if ev[4] else '+', pc, kept, ev[6]), 'selection', {}))
                 if acc is not None and len(ev[6]) > pc:
